@@ -55,7 +55,7 @@ func newFnTrans(w *World, fn *ssa.Function, con *Contract) *FnTrans {
 		edgeCond: map[[2]int]string{}, idxTerms: map[string]bool{}, elemIdx: map[string]bool{}, nameCnt: map[string]int{},
 		unknownCalls: map[string]int{}, assumedUsed: map[string]bool{}, contractsUsed: map[string]bool{}, params: map[string]Val{},
 		siteCount: map[string]int{}, strLits: map[string]string{}, typeTags: map[string]int{}, compSorts: map[string]string{},
-		constArrs: map[string]string{}, knownRefs: map[string]bool{}, globalsUsed: map[string]bool{}, intrinsicsUsed: map[string]bool{}, pureCalls: map[string]int{}, sitesMatched: map[*SiteSpec]bool{}}
+		constArrs: map[string]string{}, knownRefs: map[string]bool{}, strPairs: map[string]bool{}, globalsUsed: map[string]bool{}, intrinsicsUsed: map[string]bool{}, pureCalls: map[string]int{}, sitesMatched: map[*SiteSpec]bool{}}
 	if con != nil {
 		t.mode = con.Mode
 	}
@@ -407,8 +407,12 @@ func finishCheck(o CheckOpts, w *World, reports []*OblReport, fnReports []FnRepo
 	for _, r := range reports {
 		oblList = append(oblList, map[string]interface{}{"name": r.Name, "kind": r.Kind, "result": r.Result, "backend": r.Backend, "solver_ms": r.Millis, "status": r.Status, "pos": r.Pos})
 	}
+	// proof-level evidence: obligations that are listed known findings are
+	// reported separately (they are not claimed as proved)
+	obligations -= len(knownSeen)
 	cov := map[string]interface{}{
 		"obligations":              obligations,
+		"known_finding_obligations_not_counted": len(knownSeen),
 		"discharged":               discharged,
 		"checker_cmd":              "z3-new -smt2 <q> | cvc5 --lang=smt2 --arrays-exp <q> | z3 -smt2 <q>  (portfolio; queries generated by /verif/bin/govc from /repo's SSA)",
 		"trusted_base":             trusted,
